@@ -6,6 +6,7 @@ import Model.CrashValue
 import Model.PrepLife
 import Model.EventFlow
 import Model.ConnSetup
+import Model.TokenRing
 import Driver.Util
 namespace Driver.C05
 open Util
@@ -164,7 +165,11 @@ def step (_ : Unit) (ws : List String) : Unit × String :=
                      -- hsc <cfg> <supported> <kinds> <disc>: the same under non-default configurations
                      match ConnSetup.answerCfg ws with
                      | some a => a
-                     | none => "bad-op")
+                     | none =>
+                       -- ring <name> <hosts> <lookup>: Model/TokenRing.lean (token strings from the network)
+                       match TokenRing.answer ws with
+                       | some a => a
+                       | none => "bad-op")
 
 def init : Unit := ()
 end Driver.C05
